@@ -37,7 +37,12 @@ var targets = []string{
 	"TraefikOidc.performPreVerificationChecks", "TraefikOidc.cacheVerifiedToken", "TraefikOidc.VerifyToken", "TraefikOidc.RevokeToken",
 	"Cache.removeItem", "Cache.evictOldest", "Cache.Set", "Cache.Get", "Cache.Delete", "Cache.Cleanup",
 	"TokenCache.Set", "TokenCache.Get", "TokenCache.Delete",
+	"discoverProviderMetadata",
 }
+
+// functions whose effects are on the outside world and the clock (discovery): `time.Now()`, `time.Sleep` and the HTTP fetch are
+// operations of `Go.DOps` on a state `w` (the virtual clock and the provider's scripted answers live there)
+var clocked = map[string]bool{"discoverProviderMetadata": true}
 
 // calls that read or change the state shared between requests (token cache, revocation list, limiter): the translated function
 // takes that state as its last argument `w` and returns it next to its result; the operations are the fields of `Go.VOps`
@@ -55,6 +60,16 @@ var statefulExternals = map[string]statefulExt{
 	"t.tokenBlacklist.Get": {"blacklistGet", true, []string{"any", "bool"}, -1},
 	"t.tokenBlacklist.Set": {"blacklistSet", true, nil, 1},
 	"t.limiter.Allow":      {"limiterAllow", true, []string{"bool"}, -1},
+}
+
+// the same for the clocked functions (no `now` argument: the clock is part of the state); argument positions passed on
+var clockedExternals = map[string]struct {
+	field string
+	res   []string
+	args  []int
+}{
+	"fetchMetadata": {"fetchMetadata", []string{"metap", "error"}, []int{0}},
+	"time.Sleep":    {"sleep", nil, []int{0}},
 }
 
 // functions of /repo that are not translated but called by translated ones: they become fields of the instance record
@@ -161,6 +176,12 @@ func leanType(t string) string {
 		return "(List Go.JWK)"
 	case "pem":
 		return "Go.Pem"
+	case "metap":
+		return "(Option Go.Meta)"
+	case "httpc":
+		return "Go.HTTPClient"
+	case "logger":
+		return "Go.Logger"
 	case "cache", "tcache":
 		return "Go.CacheS"
 	case "citem":
@@ -208,6 +229,9 @@ func goType(e ast.Expr) string {
 		if s, ok := t.X.(*ast.SelectorExpr); ok && src(s) == "http.Request" {
 			return "req"
 		}
+		if s, ok := t.X.(*ast.SelectorExpr); ok && src(s) == "http.Client" {
+			return "httpc"
+		}
 		if id, ok := t.X.(*ast.Ident); ok {
 			switch id.Name {
 			case "TraefikOidc":
@@ -224,6 +248,10 @@ func goType(e ast.Expr) string {
 				return "cache"
 			case "TokenCache":
 				return "tcache"
+			case "ProviderMetadata":
+				return "metap"
+			case "Logger":
+				return "logger"
 			}
 		}
 		if sel, ok := t.X.(*ast.SelectorExpr); ok && src(sel) == "list.Element" {
@@ -591,6 +619,24 @@ func isLogger(e ast.Expr) bool {
 	return strings.Contains(s, ".logger.") || strings.HasPrefix(s, "logger.") || strings.HasPrefix(s, "log.")
 }
 
+// isLoggerVar: a call of a method of a variable of type *Logger
+func (c *ctx) isLoggerVar(e ast.Expr) bool {
+	call, ok := e.(*ast.CallExpr)
+	if !ok {
+		return false
+	}
+	sel, ok := call.Fun.(*ast.SelectorExpr)
+	if !ok {
+		return false
+	}
+	id, ok := sel.X.(*ast.Ident)
+	if !ok {
+		return false
+	}
+	_, t, ok := c.lookup(id.Name)
+	return ok && t == "logger"
+}
+
 func (c *ctx) args(call *ast.CallExpr) ([]string, []string) {
 	var as, ts []string
 	for _, a := range call.Args {
@@ -621,8 +667,23 @@ func (c *ctx) call(x *ast.CallExpr) (string, string) {
 		}
 		fail(x, "conversion of a %s", t)
 	case "time.Now":
+		if clocked[c.f.key] {
+			c.f.stateful = true
+			return "(ops.clock w)", "time"
+		}
 		c.f.needsNow = true
 		return "now", "time"
+	case "time.Since":
+		a, _ := c.expr(x.Args[0])
+		if clocked[c.f.key] {
+			c.f.stateful = true
+			return "(Go.timeSub (ops.clock w) " + a + ")", "dur"
+		}
+		c.f.needsNow = true
+		return "(Go.timeSub now " + a + ")", "dur"
+	case "strings.TrimSuffix":
+		as, _ := c.args(x)
+		return "(Go.trimSuffix " + as[0] + " " + as[1] + ")", "str"
 	case "time.Until":
 		c.f.needsNow = true
 		as, _ := c.args(x)
@@ -731,6 +792,25 @@ func (c *ctx) call(x *ast.CallExpr) (string, string) {
 		}
 		as, _ := c.args(x)
 		return "(Go.split " + as[0] + " " + as[1] + ")", "strs"
+	}
+	if ce, ok := clockedExternals[fun]; ok && clocked[c.f.key] && len(ce.res) <= 1 {
+		var as []string
+		for _, i := range ce.args {
+			a, _ := c.expr(x.Args[i])
+			as = append(as, a)
+		}
+		return c.statefulCall(x, "ops."+ce.field, false, ce.res, append([]string{"w"}, as...))
+	}
+	// time.Duration(math.Pow(2, float64(n))): a power of two as a count of nanoseconds
+	if fun == "time.Duration" && len(x.Args) == 1 {
+		if pc, ok := x.Args[0].(*ast.CallExpr); ok && src(pc.Fun) == "math.Pow" && len(pc.Args) == 2 && src(pc.Args[0]) == "2" {
+			if fc, ok := pc.Args[1].(*ast.CallExpr); ok && src(fc.Fun) == "float64" {
+				n, nt := c.expr(fc.Args[0])
+				if nt == "int" {
+					return "(Go.pow2 " + n + ")", "dur"
+				}
+			}
+		}
 	}
 	// time.Duration(float64(d) * 0.1): a duration scaled by a decimal constant (truncated toward zero)
 	if fun == "time.Duration" && len(x.Args) == 1 {
@@ -938,9 +1018,6 @@ func anyWrap(v, t string) string {
 
 // statefulCall hoists a call on the shared state out of the expression: binds its result (and the new state) before the statement
 func (c *ctx) statefulCall(x *ast.CallExpr, callee string, needNow bool, res []string, args []string) (string, string) {
-	if c.loops > 0 {
-		fail(x, "call on the shared state inside a loop")
-	}
 	c.f.stateful = true
 	parts := []string{callee}
 	if needNow {
@@ -1055,6 +1132,8 @@ func zero(t string) string {
 		return "([] : List Go.Any)"
 	case "jwkp":
 		return "(none : Option Go.JWK)"
+	case "metap":
+		return "(none : Option Go.Meta)"
 	}
 	fail(nil, "zero value of a %s", t)
 	return ""
@@ -1140,6 +1219,17 @@ func (c *ctx) assign(s *ast.AssignStmt, k func() string) string {
 						return fmt.Sprintf("let ((%s, %s), %s) := (%s)\n%s", a, b, c.recv, strings.Join(parts, " "), k())
 					}
 				}
+			}
+			if ce, ok := clockedExternals[fun]; ok && clocked[c.f.key] && len(ce.res) == 2 {
+				c.f.stateful = true
+				var as []string
+				for _, i := range ce.args {
+					a, _ := c.expr(r.Args[i])
+					as = append(as, a)
+				}
+				a, b := bind(s.Lhs[0], ce.res[0]), bind(s.Lhs[1], ce.res[1])
+				hp := c.takePre()
+				return hp + fmt.Sprintf("let ((%s, %s), w) := (ops.%s w %s)\n%s", a, b, ce.field, strings.Join(as, " "), k())
 			}
 			if se, ok := statefulExternals[fun]; ok && len(se.res) == 2 {
 				if c.loops > 0 {
@@ -1261,6 +1351,8 @@ func (c *ctx) ret(s *ast.ReturnStmt) string {
 				v = "Go.Any.nil"
 			} else if i < len(c.f.retTypes) && c.f.retTypes[i] == "obj" {
 				v = "([] : Go.Obj)"
+			} else if i < len(c.f.retTypes) && c.f.retTypes[i] == "metap" {
+				v = "(none : Option Go.Meta)"
 			} else {
 				fail(s, "nil returned as something that is not an error")
 			}
@@ -1273,9 +1365,6 @@ func (c *ctx) ret(s *ast.ReturnStmt) string {
 	} else if len(vals) > 1 {
 		e = "(" + strings.Join(vals, ", ") + ")"
 	}
-	if c.f.stateful && len(c.retWrap) != 1 {
-		fail(s, "return inside a loop of a function on the shared state")
-	}
 	return c.takePre() + c.retWrap[len(c.retWrap)-1](c.valueWrap(e))
 }
 
@@ -1284,6 +1373,14 @@ func (c *ctx) assigned(n ast.Node) []string {
 	seen := map[string]bool{}
 	var out []string
 	ast.Inspect(n, func(m ast.Node) bool {
+		if inc, ok := m.(*ast.IncDecStmt); ok {
+			if id, ok := inc.X.(*ast.Ident); ok {
+				if ln, _, ok := c.lookup(id.Name); ok && !seen[ln] {
+					seen[ln] = true
+					out = append(out, ln)
+				}
+			}
+		}
 		if a, ok := m.(*ast.AssignStmt); ok && a.Tok == token.ASSIGN {
 			for _, l := range a.Lhs {
 				if id, ok := l.(*ast.Ident); ok && id.Name != "_" {
@@ -1298,6 +1395,25 @@ func (c *ctx) assigned(n ast.Node) []string {
 	})
 	if c.f.recvMut && c.recv != "" && !seen[c.recv] {
 		out = append(out, c.recv)
+	}
+	if c.f.stateful && !seen["w"] {
+		out = append(out, "w")
+	}
+	sort.Strings(out)
+	return out
+}
+
+// assignedAll: the union of `assigned` over several nodes
+func (c *ctx) assignedAll(ns []ast.Node) []string {
+	seen := map[string]bool{}
+	var out []string
+	for _, n := range ns {
+		for _, v := range c.assigned(n) {
+			if !seen[v] {
+				seen[v] = true
+				out = append(out, v)
+			}
+		}
 	}
 	sort.Strings(out)
 	return out
@@ -1316,7 +1432,7 @@ func tuple(names []string) string {
 func (c *ctx) stmt(s ast.Stmt, k func() string) string {
 	switch x := s.(type) {
 	case *ast.ExprStmt:
-		if isLogger(x.X) {
+		if isLogger(x.X) || c.isLoggerVar(x.X) {
 			return k()
 		}
 		if call, ok := x.X.(*ast.CallExpr); ok && c.f.recvMut {
@@ -1331,6 +1447,16 @@ func (c *ctx) stmt(s ast.Stmt, k func() string) string {
 				return p + k()
 			}
 			fail(x, "call statement without effect on the shared state")
+		}
+	case *ast.IncDecStmt:
+		if id, ok := x.X.(*ast.Ident); ok {
+			if ln, t, ok := c.lookup(id.Name); ok && t == "int" {
+				op := "+"
+				if x.Tok == token.DEC {
+					op = "-"
+				}
+				return fmt.Sprintf("let %s := (%s %s (1 : Int))\n%s", ln, ln, op, k())
+			}
 		}
 	case *ast.DeferStmt:
 		if strings.Contains(src(x.Call.Fun), ".mutex.") { // (the lock discipline is an obligation of its own: regenerated facts)
@@ -1478,13 +1604,33 @@ func (c *ctx) stmt(s ast.Stmt, k func() string) string {
 		c.pop()
 		return out.String()
 	case *ast.ForStmt:
-		if x.Init != nil || x.Post != nil || x.Cond == nil {
+		if x.Cond == nil {
 			fail(x, "unsupported for form")
+		}
+		if x.Init != nil { // for i := 0; cond; post { body }  =  { i := 0; for cond { body; post } }
+			c.push()
+			depth := len(c.scopes)
+			inner := &ast.ForStmt{For: x.For, Cond: x.Cond, Post: x.Post, Body: x.Body}
+			out := c.stmt(x.Init, func() string {
+				return c.stmt(inner, func() string {
+					saved := c.scopes[depth-1:]
+					c.scopes = c.scopes[:depth-1]
+					r := k()
+					c.scopes = append(c.scopes, saved...)
+					return r
+				})
+			})
+			c.pop()
+			return out
 		}
 		c.f.fuel = true
 		c.loops++
 		defer func() { c.loops-- }()
-		state := c.assigned(x.Body)
+		probe := []ast.Node{x.Body}
+		if x.Post != nil {
+			probe = append(probe, x.Post)
+		}
+		state := c.assignedAll(probe)
 		st := tuple(state)
 		cond, ct := c.expr(x.Cond)
 		if ct != "bool" {
@@ -1492,7 +1638,12 @@ func (c *ctx) stmt(s ast.Stmt, k func() string) string {
 		}
 		c.retWrap = append(c.retWrap, func(e string) string { return ".ret (" + e + ")" })
 		c.brk = append(c.brk, func() string { return ".brk " + st })
-		body := c.block(x.Body, func() string { return ".next " + st })
+		body := c.block(x.Body, func() string {
+			if x.Post != nil {
+				return c.stmt(x.Post, func() string { return ".next " + st })
+			}
+			return ".next " + st
+		})
 		c.retWrap = c.retWrap[:len(c.retWrap)-1]
 		c.brk = c.brk[:len(c.brk)-1]
 		after := k()
@@ -1628,14 +1779,18 @@ func (f *fn) translate() (code string, err string) {
 		params = append([]string{"(now : Go.Time)"}, params...)
 	}
 	if f.stateful {
-		if f.fuel || len(rts) > 1 {
-			fail(f.decl, "function on the shared state with a general loop or several results")
+		opsT := "Go.VOps"
+		if clocked[f.key] {
+			opsT = "Go.DOps"
 		}
-		params = append([]string{"{σ : Type} (ops : Go.VOps σ)"}, params...)
+		params = append([]string{"{σ : Type} (ops : " + opsT + " σ)"}, params...)
 		params = append(params, "(w : σ)")
 		if len(rts) == 0 {
 			rt = "σ"
 		} else {
+			if len(rts) > 1 {
+				rt = "(" + rt + ")"
+			}
 			rt = rt + " × σ"
 		}
 	}
